@@ -1154,6 +1154,28 @@ TARGETS.append(dict(
           "  match P0f.apiFpHttp db data with | .ok r => .ok (r.2.1, r.2.2.1, r.2.2.2) | .error e => .error e\n",
 ))
 
+# ---------------------------------------------------------------------------------------------- C15: lookup by label text
+def _gr_iter(fn, a, k, e):
+    if k or [ast.unparse(x) for x in a] != ["key", "direction"]:
+        raise NotTranslatable("self.iter_values call shape")
+    return fn.raising("(Except.toOption (Db.iter db k d))", "List:Rec:DbRec")
+
+
+TARGETS.append(dict(
+    module="pyp0f.database.records_database", func="RecordsDatabase.get_random", file="GetRandom", lean="getRandom",
+    import_="P0f.Glue.Records", open="P0f P0f.Py",
+    pyparams=["self", "raw_label", "key", "direction"], params=[("db", "Db"), ("raw_label", "List Char"), ("k", "RecKind"), ("d", "Option Dir")],
+    ret="Exc:List:Rec:DbRec", lean_ret="Except LoadErr (List DbRec)", err_ty="LoadErr", err_default="(Except.error LoadErr.database)",
+    env={"raw_label": ("raw_label", "Str"), "key": ("k", "Enum:RecKind"), "direction": ("d", "Opt:Enum:Dir")},
+    raises={"DatabaseError": "(Except.error LoadErr.database)"}, lean_types={"Str": "List Char", "Rec:DbRec": "DbRec"},
+    # `random.choice(records)`: the outcome the model keeps is the candidate list the draw is made from
+    random_sites=[("records", "List:Rec:DbRec")],
+    calls={"self.iter_values": _gr_iter,
+           # record.label.dump(): MTULabel -> its name, Label -> the printed Label.dump (a record without label cannot be filed by the parser)
+           "record.label.dump": bound([], ("(Option.elim record.label [] P0f.Gen.dbLabelDump)", "Str"))},
+    alias="def getRandom (db : Db) (raw_label : List Char) (k : RecKind) (d : Option Dir) : Except LoadErr (List DbRec) := P0f.Db.candidates db raw_label k d\n",
+))
+
 # ---------------------------------------------------------------------------------------------- C18: the writers
 TARGETS.append(dict(
     module="pyp0f.net.layers.tcp.options", func="TCPOptions.dump", file="DumpLayout", lean="dumpLayout", import_="P0f.Model.TcpOptions", open="P0f",
